@@ -414,6 +414,9 @@ func (p *sdlParser) readUnion(desc string) (Type, error) {
 	if err == nil {
 		b, err = p.skipSpace()
 	}
+	if err == nil && b != '=' && p.extending {
+		return union, nil // an extension without members, 'extend union U @dir'
+	}
 	if err == nil && b != '=' {
 		err = fmt.Errorf("%w, expected = at %d:%d", ErrParse, p.line, p.col)
 	}
